@@ -1,7 +1,7 @@
 (* C10 -- overlap removal leaves a separated subset; distance queries agree. *)
-From Coq Require Import QArith List Arith Bool Lia Lqa.
+From Coq Require Import QArith Qround List Arith Bool Lia Lqa.
 Import ListNotations.
-From PD Require Import Model.Overlap Model.Grid Proofs.Overlap.
+From PD Require Import Model.Overlap Model.Grid Model.OverlapCases Proofs.Overlap.
 Local Open Scope Q_scope.
 
 (* get_pairwise_distances: the loops fill dists[i,j] = dists[j,i] for i < j, diagonal stays 0 *)
@@ -52,3 +52,27 @@ Qed.
 (* Euclidean squared distance is symmetric *)
 Lemma edist2_sym p q : edist2 p q == edist2 q p.
 Proof. apply sub_vec_sym_sq. Qed.
+
+(* a zero difference stays zero under the periodic wrap, for every period (also the degenerate period 0) *)
+Lemma wrap1_zero L d : d == 0 -> wrap1 L d == 0.
+Proof.
+  intros Hd. unfold wrap1, Qmod.
+  assert (H : Qfloor ((d + L / 2) / L) = 0%Z).
+  { destruct (Qeq_dec L 0) as [E|E].
+    - assert (E2 : (d + L / 2) / L == 0) by (rewrite E, Hd; reflexivity).
+      rewrite E2. reflexivity.
+    - assert (E2 : (d + L / 2) / L == 1 # 2) by (rewrite Hd; field; exact E).
+      rewrite E2. reflexivity. }
+  rewrite H, Hd. simpl. ring.
+Qed.
+
+(* on the symmetry axis of a cylindrical grid the metric py-pde 0.58.0 uses (Model/OverlapCases.v cyl_metric) is the
+   plain Euclidean one, whether or not the grid is periodic in z: the z difference is never wrapped (findings F19, F29) *)
+Lemma cyl_axis_metric nr nz R z0 z1 pz a b :
+  dist2 (cyl_metric nr nz R z0 z1 pz) [0; 0; a] [0; 0; b] == (b - a) * (b - a).
+Proof.
+  unfold dist2, cyl_metric, plain_axis. simpl. unfold diff1. simpl.
+  destruct pz; simpl.
+  - rewrite (wrap1_zero _ (0 - 0)) by ring. ring.
+  - ring.
+Qed.
